@@ -235,13 +235,15 @@ theorem skipBelow_strict (dlim B : ℝ) (hB : B < 0.999) : ∀ (fuel : Nat) (lo 
     obtain ⟨hc, hf0, hd0, hle, hlim0, hlast⟩ := h
     have hc' := List.isChain_cons_cons.1 hc
     unfold skipBelow
-    by_cases hgt : dlim ≥ nx.2
+    by_cases hgt : nx.2 ≤ dlim * ((1.0 : ℝ) + (1e-12 : ℝ))
     · rw [if_pos hgt]
       cases rest with
       | nil =>
         simp only [List.getLast_singleton] at hlast
         simp only [List.getLast_singleton] at hne
-        exact absurd hgt (not_le.2 hne)
+        exact
+          { f0 := hf0, f1 := hc'.1.1, d0 := hd0, d1 := hc'.1.2, lim0 := hlim0, lim1 := hne,
+            chain := hc'.2, le := hle, B999 := hB }
       | cons t rest' =>
         simp only
         have hc'' := List.isChain_cons_cons.1 hc'.2
@@ -260,7 +262,7 @@ theorem skipBelow_strict (dlim B : ℝ) (hB : B < 0.999) : ∀ (fuel : Nat) (lo 
     · rw [if_neg hgt]
       exact
         { f0 := hf0, f1 := hc'.1.1, d0 := hd0, d1 := hc'.1.2, lim0 := hlim0,
-          lim1 := not_le.1 hgt,
+          lim1 := (by have := not_le.1 hgt; nlinarith),
           chain := hc'.2, le := hle, B999 := hB }
 
 /-- the skip keeps `points_left` = number of remaining points after the first -/
@@ -273,7 +275,7 @@ theorem skipBelow_pl (dlim : ℝ) : ∀ (fuel : Nat) (lo nx : ℝ × ℝ) (rest 
   | succ k ih =>
     intro lo nx rest pl h hz
     unfold skipBelow
-    by_cases hgt : dlim ≥ nx.2
+    by_cases hgt : nx.2 ≤ dlim * ((1.0 : ℝ) + (1e-12 : ℝ))
     · rw [if_pos hgt]
       cases rest with
       | nil => exact h
